@@ -37,7 +37,9 @@ pub fn panic_disc(p: &PanicInfo) -> String {
     let file = p.file.rsplit("/src/").next().unwrap_or(&p.file);
     let mut msg = String::new();
     let mut in_quote = false;
-    for c in p.msg.chars() {
+    // the message class: everything before the first ": " (arguments follow it)
+    let head = p.msg.split(": ").next().unwrap_or("");
+    for c in head.chars() {
         if c == '"' {
             in_quote = !in_quote;
             continue;
